@@ -47,7 +47,9 @@ struct C17 : Profile {
       "oc = opass(oa);", "oc = opass(vf(51));", "oc = omake(52);", "print omake(53).tag();", "do okeep(oa);", "print vf(61).me().me().tag();",
       "print vf(62).tag() + vf(63).tag();", "begin oc = vf(71); raise OOPS; exception when OOPS then print \"h\" oc.tag(); end;",
       "begin oc = opass(vf(72)); ob = omake(0 / 0); exception when others then print error@1; end;", "print isnull(ob);", "print oa.tag();",
-      "for k in 1 to 3 loop oc = vf(80 + k); if k == 2 then break; end if; end loop;", "w9 = 0; while w9 < 2 loop w9 = w9 + 1; ob = vf(90); end loop;" };
+      "for k in 1 to 3 loop oc = vf(80 + k); if k == 2 then break; end if; end loop;", "w9 = 0; while w9 < 2 loop w9 = w9 + 1; ob = vf(90); end loop;",
+      // an element written through the iterator and read again in the same iteration
+      "forall oe in ot loop oe = vf(42); oc = oe; print oe.tag(); end loop;", "forall oe in ot loop oe = oa; ou = tup(1, oe, \"y\"); print oe.tag() isnull(oe); end loop;", "forall oe in ot loop oe = vf(43); do okeep(oe); print opass(oe).tag(); end loop;" };
     int n = (int)r.range(4, 14);
     for (int i = 0; i < n; ++i) {
       switch (r.below(8)) {
@@ -95,9 +97,9 @@ struct C17 : Profile {
     plan["faults"] = faults;
     plan["cancel_at"] = fr.chance(0.2) ? fr.range(1, 40) : 0;
     // host history
-    static const char* OPS[] = {"run", "run", "clone", "run_clone", "purge", "free_clone", "free_orig", "run_clone", "clone_of_clone"};
+    static const char* OPS[] = {"run", "run", "clone", "run_clone", "purge", "free_clone", "free_orig", "run_clone", "clone_of_clone", "redefine", "redefine"};
     json ops = json::array({"run"}); int n = (int)fr.range(0, 6);
-    for (int i = 0; i < n; ++i) ops.push_back(OPS[fr.below(9)]);
+    for (int i = 0; i < n; ++i) ops.push_back(OPS[fr.below(11)]);
     plan["ops"] = ops;
     return plan;
   }
@@ -146,7 +148,7 @@ struct C17 : Profile {
       check_refs(who + " after run");
     };
 
-    int lifecycle = 0;
+    int lifecycle = 0; std::vector<bloc::Executable*> extra_exes;
     for (auto& opj : plan.value("ops", json::array())) {
       std::string op = opj.get<std::string>();
       ev.add("op:" + op);
@@ -154,6 +156,10 @@ struct C17 : Profile {
       else if (op == "clone") { if (orig && orig_usable && clones.size() < 3) { std::unique_ptr<Capture> cap(new Capture()); bloc::Context* c = orig->clone(cap->fd(), cap->fd()); clones.emplace_back(c, std::move(cap)); ++lifecycle; ++res.faults["clone"]; } }
       else if (op == "clone_of_clone") { bloc::Context* src = nullptr; for (auto& c : clones) if (c.first) src = c.first; if (src && clones.size() < 3) { std::unique_ptr<Capture> cap(new Capture()); bloc::Context* c = src->clone(cap->fd(), cap->fd()); clones.emplace_back(c, std::move(cap)); ++lifecycle; ++res.faults["clone_of_clone"]; } }
       else if (op == "run_clone") { for (auto& c : clones) if (c.first) { run_in(*c.first, "clone"); break; } }
+      else if (op == "redefine") { // the functions that keep objects in their locals are declared again (accepted): the runtime contexts of the replaced declarations, and the objects they hold, are released
+        if (orig && orig_usable) { bloc::Executable* re = nullptr; static long nth = 0; ++nth;
+          Outcome o = parse_text(*orig, "function omake(t) return vf is\nbegin\n  loc = vf(t);\n  tmp = vf(t + 1);\n  tm2 = vf(t + 2);\n  return loc;\nend;\nfunction okeep(o:vf) return integer is\nbegin\n  held = o;\n  hel2 = o;\n  return 2;\nend;\n", re);
+          if (o.ok()) { Outcome ro = run_exe(*orig, re); if (ro.kind == Outcome::FOREIGN) fail("C17/foreign-exception", ro.text); extra_exes.push_back(re); ++lifecycle; ++res.faults["redefine_functions"]; } else { delete re; ++res.probes["redefinition_rejected"]; } } }
       else if (op == "purge") { if (orig && orig_usable) { orig->purge(); orig_usable = false; ++lifecycle; ++res.faults["purge"]; } }
       else if (op == "free_clone") { for (auto& c : clones) if (c.first) { delete c.first; c.first = nullptr; ++lifecycle; ++res.faults["free_clone"]; break; } }
       else if (op == "free_orig") { if (orig) { delete orig; orig = nullptr; orig_usable = false; ++lifecycle; ++res.faults["free_orig"]; } }
@@ -161,7 +167,7 @@ struct C17 : Profile {
     }
     // release everything: "no later"
     for (auto& c : clones) { delete c.first; c.first = nullptr; }
-    delete be; delete se;
+    delete be; delete se; for (auto e : extra_exes) delete e;
     if (orig) delete orig;
     long created = (long)host.objects.size();
     for (auto& o : host.objects) if (o.destroyed != 1) fail(o.destroyed == 0 ? "C17/object-never-destroyed" : "C17/object-destroyed-twice", "object #" + std::to_string(o.oid) + " (tag " + std::to_string(o.tag) + ") destroyed " + std::to_string(o.destroyed) + " times after everything was released");
